@@ -95,14 +95,14 @@ Qed.
 (* an effectful unit's own _optimize_graph does nothing; a side-effect-free unit that still has a
    descendant and is not a BinaryOpUGen is left alone: only a pure unit whose maintained descendant set
    is empty is dropped by dead code elimination *)
-Lemma opt_unit_impure : forall strict guard f s u U, get_unit s u = Some U -> pure U = false ->
-  opt_unit T strict guard (S f) s u = Ok s.
-Proof. intros strict guard f s u U Hg Hp. cbn [opt_unit]. unfold opt_body. rewrite Hg, Hp. reflexivity. Qed.
-Lemma opt_unit_referenced : forall strict guard f s u U d, get_unit s u = Some U -> pure U = true ->
+Lemma opt_unit_impure : forall strict guard sg f s u U, get_unit s u = Some U -> pure U = false ->
+  opt_unit T strict guard sg (S f) s u = Ok s.
+Proof. intros strict guard sg f s u U Hg Hp. cbn [opt_unit]. unfold opt_body. rewrite Hg, Hp. reflexivity. Qed.
+Lemma opt_unit_referenced : forall strict guard sg f s u U d, get_unit s u = Some U -> pure U = true ->
   desc_of s U = Some d -> d <> [] -> ukind U <> KBin ->
-  opt_unit T strict guard (S f) s u = Ok s.
+  opt_unit T strict guard sg (S f) s u = Ok s.
 Proof.
-  intros strict guard f s u U d Hg Hp Hd Hne Hk. cbn [opt_unit]. unfold opt_body. rewrite Hg, Hp, Hd. simpl.
+  intros strict guard sg f s u U d Hg Hp Hd Hne Hk. cbn [opt_unit]. unfold opt_body. rewrite Hg, Hp, Hd. simpl.
   destruct d; [congruence|]. simpl. destruct (ukind U); congruence.
 Qed.
 
@@ -113,15 +113,15 @@ Definition F10_add : prog := mkP [] [] [
   IU "Saw" Audio [AC 440]; IBin "add" (AV 0 0) (AV 0 0); IOut Audio (AC 0) [AV 0 0]].
 Definition F10_lpf : prog := mkP [] [] [
   IU "Saw" Audio [AC 440]; IU "LPF" Audio [AV 0 0; AV 0 0]; IOut Audio (AC 0) [AV 0 0]].
-Definition compiles (strict guard : bool) (p : prog) : bool :=
-  match compile T strict guard p with Ok _ => true | Err _ => false end.
+Definition compiles (strict guard sg : bool) (p : prog) : bool :=
+  match compile T strict guard sg p with Ok _ => true | Err _ => false end.
 
 (* with set.remove the faithful model raises KeyError on all three; with set.discard all compile *)
 Lemma f10_strict_raises :
-  compile T true false F10 = Err EKey /\ compile T true false F10_add = Err EKey /\ compile T true false F10_lpf = Err EKey.
+  compile T true false false F10 = Err EKey /\ compile T true false false F10_add = Err EKey /\ compile T true false false F10_lpf = Err EKey.
 Proof. vm_compute. repeat split; reflexivity. Qed.
-Lemma f10_discard_compiles : forallb (compiles false false) [F10; F10_add; F10_lpf] = true.
+Lemma f10_discard_compiles : forallb (compiles false false false) [F10; F10_add; F10_lpf] = true.
 Proof. vm_compute. reflexivity. Qed.
 (* the code as regenerated from the working tree *)
-Lemma f10_current_tree_compiles : forallb (compiles dce_strict dce_guard) [F10; F10_add; F10_lpf] = true.
+Lemma f10_current_tree_compiles : forallb (compiles dce_strict dce_guard sub_guard) [F10; F10_add; F10_lpf] = true.
 Proof. vm_compute. reflexivity. Qed.
